@@ -1152,7 +1152,12 @@ fn try_stat<P: AsRef<Path>>(path: P) -> io::Result<Option<Metadata>> {
             io::ErrorKind::NotFound => Ok(None),
             // A path that leads through a regular file names nothing (a
             // script may have replaced the target's directory by a file).
-            _ if e.raw_os_error() == Some(libc::ENOTDIR) => Ok(None),
+            // (or through a symbolic link that points at itself)
+            _ if e.raw_os_error() == Some(libc::ENOTDIR)
+                || e.raw_os_error() == Some(libc::ELOOP) =>
+            {
+                Ok(None)
+            }
             _ => Err(e),
         },
     }
